@@ -26,9 +26,34 @@ func (vc *VC) safety(pos token.Pos, pc, kind, goal, what string) {
 
 func (f *Frame) loopHead(li *loopInfo, b *ssa.BasicBlock, edges []Edge, pc string, st *State) (string, *State) {
 	vc := f.vc
+	f.curHead = b
+	defer func() { f.curHead = nil }()
 	var spec *LoopSpec
 	if f.con != nil {
 		spec = f.con.Loops[li.ordinal]
+	}
+	// range loops: the hidden index starts at -1 and only grows (automatic invariant, checked like any other)
+	for _, ins := range b.Instrs {
+		phi, ok := ins.(*ssa.Phi)
+		if !ok {
+			break
+		}
+		if phi.Comment == "rangeindex" {
+			txt := "(and (bvsle (int -1) rangeindex) (bvslt rangeindex (int 0x4000000000000000)))"
+			if vc.mode == Math {
+				txt = "(<= (- 1) rangeindex)"
+			}
+			ex, _ := parseSexp(txt)
+			auto := Clause{Labels: []string{"auto.rangeindex"}, Expr: ex, Text: txt}
+			ns := &LoopSpec{}
+			if spec != nil {
+				ns.Invariants = append(ns.Invariants, spec.Invariants...)
+				ns.Decreases = spec.Decreases
+			}
+			ns.Invariants = append([]Clause{auto}, ns.Invariants...)
+			spec = ns
+			li.autoSpec = ns
+		}
 	}
 	pos := b.Instrs[0].Pos()
 	if pos == token.NoPos {
@@ -113,9 +138,14 @@ func (vc *VC) failObl(name string, cl Clause, err error) {
 // backEdge checks invariant preservation when control returns to the loop head.
 func (f *Frame) backEdge(li *loopInfo, from *ssa.BasicBlock, pc string, st *State) {
 	vc := f.vc
+	f.curHead = li.head
+	defer func() { f.curHead = nil }()
 	var spec *LoopSpec
 	if f.con != nil {
 		spec = f.con.Loops[li.ordinal]
+	}
+	if li.autoSpec != nil {
+		spec = li.autoSpec
 	}
 	if spec == nil {
 		return
